@@ -9,6 +9,7 @@ CONSTANTS
   KF_NodeReq = FALSE
   LookupMode = "exact"
   KF_EndTest = FALSE
+  KF_WildHost = FALSE
   KF_WildNew = TRUE
 SPECIFICATION ISpec
 INVARIANTS InvCorrect InvOrder InvBuild Witnesses
